@@ -71,6 +71,15 @@ def _arm_cmps(fn, blocks):
         if not (st["names"] or calls):
             continue
         cls = "ord" if g.rel in CP.ORD_RELS else "eq"
+        # an ordering against one constant in canonical form: the threshold t of `x >= t` (or of its negation), so that
+        # `x > 286` and `x >= 287` are one decision
+        if g.rel in ("Le", "Lt") and bool(g.lo_consts) != bool(g.hi_consts):
+            ks = [k_ for k_ in (g.lo_consts or g.hi_consts) if isinstance(k_, int)]
+            if len(ks) == 1:
+                k_ = ks[0]
+                t_ = k_ if (g.rel, bool(g.lo_consts)) in (("Le", True), ("Lt", False)) else k_ + 1
+                st = dict(st)
+                st["consts"] = [str(t_)]
         # a named constant (`MAX_DIST_SYMBOLS`) and the literal it stands for are the same decision
         names = tuple(n_ for n_ in st["names"] if not (n_.isupper() or (n_[:1].isupper() and "_" in n_ and n_.upper() == n_)))
         if not (names or calls):
